@@ -3,6 +3,6 @@ NEXT GenNext
 CONSTANTS
   KL = 9
   KS = 6
-  MaxLen = 3
+  MaxLen = 2
 INVARIANTS Emit
 CHECK_DEADLOCK FALSE
